@@ -1,5 +1,6 @@
 import Tibc.Props.C06
 import Tibc.World
+import Tibc.Lemmas.RelayEditWitness
 /-
   C04 — NFT transfers never duplicate an NFT or release escrow to the wrong claimant.
   PROPERTY THEOREMS ONLY.
@@ -146,5 +147,17 @@ theorem recv_back_releases_only_escrowed (a : Apps) (d : NftData)
           | none => simp [liftNft, hd] at hok
           | some dn => simp [liftNft, hd, bne_self_eq_false]
         · simp [liftNft, hs] at hok
+
+/-- **The global one-holder statement is FALSE of the code** (known finding F-C04-relayedit; the
+    root cause is C13: the packet commitment does not bind the relay chain). In the history
+    `RelayEdit.nftHistory` every step is accepted; the NFT `dog/rex`, minted once on A and sent
+    directly to C, ends up held by `alice` on A (refunded on the strength of a third chain's
+    refusal) *and*, as a voucher, by `carol` on C. Evaluated by the kernel; replayed on the real
+    chains by the `nft` stream (scenario `relay-edit-after-delivery`). -/
+theorem one_holder_fails_under_relay_edit :
+    RelayEdit.results RelayEdit.nftHistory = List.replicate 13 Res.ok ∧
+    (RelayEdit.nftWorld "A").apps.nft.owner ("dog".toList, "rex".toList) = some "alice" ∧
+    (RelayEdit.nftWorld "C").apps.nft.owner (ibcClass id "nft/A/C/dog".toList, "rex".toList) = some "carol" := by
+  decide
 
 end Tibc.C04
